@@ -141,6 +141,62 @@ theorem svcOfRoute_1 : svcOfRoute (.service 1) = .http := by
 
 theorem svcOfRoute_closed : svcOfRoute .closed = .none := rfl
 
+theorem any_prefix_mono (S : List Bytes) (v s : Bytes) (hv : v <+: s)
+    (h : S.any (fun k => k.isPrefixOf v) = true) : S.any (fun k => k.isPrefixOf s) = true := by
+  rw [List.any_eq_true] at h ⊢
+  obtain ⟨k, hk, hp⟩ := h
+  exact ⟨k, hk, List.isPrefixOf_iff_prefix.mpr ((List.isPrefixOf_iff_prefix.mp hp).trans hv)⟩
+
+theorem svcOfRoute_ge2 (j : Nat) : svcOfRoute (.service (j + 2)) = .none := by
+  unfold svcOfRoute; rw [genRegsD_eq]; rfl
+
+/-- `Listener.serve` of the current tree under EVERY socket script: whoever gets the
+    connection, the stream really starts with one of that matcher's strings; a handed-over
+    connection is open, its sniff deadline cleared, nothing of the stream lost; otherwise
+    the connection is closed. -/
+theorem serve_gen_any (s : Bytes) (evs : List Ev) :
+    ∃ r, genServe s evs = .ok r ∧
+      (svcOfRoute r.route = .rtsp → (specials ++ rtspOnlyMethods).any (fun k => k.isPrefixOf s) = true) ∧
+      (svcOfRoute r.route = .http → httpMethods.any (fun k => k.isPrefixOf s) = true) ∧
+      (r.route = .closed ↔ svcOfRoute r.route = .none) ∧
+      (r.route ≠ .closed → r.st.closed = false ∧ (genTimeoutSet = true → r.st.deadline = false) ∧
+        pending r.st ++ r.st.rem = s) ∧
+      (r.route = .closed → r.st.closed = true) := by
+  obtain ⟨r, hr, hsvc, hcl⟩ := serve_any genTimeoutSet genTrees s evs
+  refine ⟨r, hr, ?_⟩
+  rw [genTrees_eq] at hsvc
+  cases hroute : r.route with
+  | closed =>
+    refine ⟨?_, ?_, ?_, ?_, fun _ => hcl hroute⟩
+    · intro h; rw [svcOfRoute_closed] at h; cases h
+    · intro h; rw [svcOfRoute_closed] at h; cases h
+    · simp [svcOfRoute_closed]
+    · intro h; exact absurd rfl h
+  | service j =>
+    obtain ⟨t, v, hget, hv, hm, hc, hd, hp⟩ := hsvc j hroute
+    have hopen : Route.service j ≠ .closed → r.st.closed = false ∧ (genTimeoutSet = true → r.st.deadline = false) ∧
+        pending r.st ++ r.st.rem = s := fun _ => ⟨hc, hd, hp⟩
+    match j, hget with
+    | 0, hget =>
+      simp only [List.getElem?_cons_zero, Option.some.injEq] at hget
+      subst hget
+      have hm' : (specials ++ rtspOnlyMethods).any (fun k => k.isPrefixOf v) = true := by
+        rw [← matchNode_newNode_prefix (maxLen (specials ++ rtspOnlyMethods) + 1) _ (by decide) (Nat.lt_succ_self _) v]
+        exact hm
+      refine ⟨fun _ => any_prefix_mono _ v s hv hm', ?_, ?_, hopen, fun h => by cases h⟩
+      · intro h; rw [svcOfRoute_0] at h; cases h
+      · simp [svcOfRoute_0]
+    | 1, hget =>
+      simp only [List.getElem?_cons_succ, List.getElem?_cons_zero, Option.some.injEq] at hget
+      subst hget
+      have hm' : httpMethods.any (fun k => k.isPrefixOf v) = true := by
+        rw [← matchNode_newNode_prefix (maxLen httpMethods + 1) _ (by decide) (Nat.lt_succ_self _) v]
+        exact hm
+      refine ⟨?_, fun _ => any_prefix_mono _ v s hv hm', ?_, hopen, fun h => by cases h⟩
+      · intro h; rw [svcOfRoute_1] at h; cases h
+      · simp [svcOfRoute_1]
+    | j + 2, hget => simp at hget
+
 /-- which service the matchers of the current source tree pick for a well-formed first line:
     exactly the one the decision rule of the property names -/
 theorem routeOf_gen (m t v rest : Bytes) (hm : tokenOK m = true) (ht : tokenOK t = true)
